@@ -328,23 +328,27 @@ def _shapes_c04_4(tier):
             if (auth, d, a) in slow:
                 continue
             out.append(dict(auth=auth, dir=d, lo=a, hi=min(a + w, hi)))
-    if tier == "quick":
+    def grid(off):
         add("psk_dhe", "s", 0, 288, 16)
-        add("psk_dhe", "c", 0, 352, 2, 16)
+        add("psk_dhe", "c", off, 352, 2, 16)
         add("cert", "s", 0, 160, 16)
         add("hrr", "s", 0, 96, 16)
-        add("hrr", "c", 352, 704, 2, 32)
-    else:
-        # sized to about half an hour on 16 cores: the first thorough sizing
-        # (every offset of every stream, 612 jobs of up to 50 minutes) was
-        # stopped after two hours
-        add("hrr", "s", 0, 400, 16)
-        # the first ClientHello of the retry flow has the layout of the PSK
-        # ClientHello swept below: only the second one is swept here
-        add("hrr", "c", 352, 800, 2, 8)
-        add("psk_dhe", "s", 0, 288, 8)
-        add("psk_dhe", "c", 0, 352, 2, 4)
-        add("cert", "s", 0, 320, 16)
+        add("hrr", "c", 352 + off, 704, 2, 32)
+    grid(0)
+    if tier != "quick":
+        # thorough = the quick grid plus a second grid shifted by 8 offsets
+        # in the client streams, the rest of the certificate flight and of
+        # the retry flow.  Sweeping every offset (first sizing: 612 jobs)
+        # was stopped after two hours: windows that hit a length field cost
+        # 3 to 50 minutes each
+        out2 = list(out)
+        del out[:]
+        grid(8)
+        extra = [x for x in out if x not in out2]
+        del out[:]
+        out.extend(out2 + extra)
+        add("cert", "s", 160, 320, 16)
+        add("hrr", "s", 96, 400, 16)
     return out
 
 
@@ -611,16 +615,16 @@ def _shapes_c04_6(tier):
     def add(scn, d, lo, hi, w, stride=None):
         for a in range(lo, hi, stride or w):
             out.append(dict(scenario=scn, dir=d, lo=a, hi=min(a + w, hi)))
-    if tier == "quick":
-        add("tls12-ecdhe-gcm", "c", 0, 320, 2, 16)
-        add("tls12-ecdhe-gcm", "s", 0, 1280, 4, 64)
-        add("tls12-rsa-cbc", "c", 160, 480, 4, 64)
-    else:
-        add("tls12-ecdhe-gcm", "c", 0, 320, 2, 4)
-        add("tls12-ecdhe-gcm", "s", 0, 1280, 4, 16)
-        add("tls12-rsa-cbc", "c", 0, 480, 2, 8)
-        add("tls12-rsa-cbc", "s", 0, 1120, 4, 32)
-        add("tls10-dhe-cbc", "c", 0, 480, 2, 16)
+    add("tls12-ecdhe-gcm", "c", 0, 320, 2, 16)
+    add("tls12-ecdhe-gcm", "s", 0, 1280, 4, 64)
+    add("tls12-rsa-cbc", "c", 160, 480, 4, 64)
+    if tier != "quick":
+        # second, shifted grid and the TLS 1.0 flow (see C04.4 on sizing)
+        add("tls12-ecdhe-gcm", "c", 8, 320, 2, 16)
+        add("tls12-ecdhe-gcm", "s", 32, 1280, 4, 64)
+        add("tls12-rsa-cbc", "c", 32, 480, 4, 64)
+        add("tls12-rsa-cbc", "s", 0, 1120, 4, 64)
+        add("tls10-dhe-cbc", "c", 0, 480, 2, 32)
     return out
 
 
@@ -720,9 +724,12 @@ def _mixed_settings():
 
 def _shapes_c04_7(tier):
     out = []
-    w, stride = (2, 16) if tier == "quick" else (2, 4)
+    w, stride = 2, 16
     for a in range(0, 400, stride):
         out.append(dict(dir="c", lo=a, hi=a + w))
+    if tier != "quick":
+        for a in range(8, 400, stride):
+            out.append(dict(dir="c", lo=a, hi=a + w))
     for a in range(0, 176, 16 if tier == "quick" else 8):
         out.append(dict(dir="s", lo=a, hi=a + (16 if tier == "quick" else 8)))
     return out
